@@ -1111,6 +1111,30 @@ class Exec:
         self.fuel = self.FUEL
         return self.call_fn(st, key, args, self_ty, depth=0)
 
+    def run_segment(self, key, start_bb, st, fid, stops, self_ty=None):
+        """Execute part of a function body: from block `start_bb` on state `st` (whose frame `fid` holds the locals)
+        until return or until a block of `stops` is reached again.  -> {'ret'|bb: (guard, state)} merged per exit."""
+        mir = self.pdb.fn(key)['mir']
+        ctx = {'key': key, 'self_ty': self_ty, 'depth': 0, 'fid': fid}
+        self.fn_stack.append(key)
+        try:
+            outs = self.run(ctx, mir, start_bb, st, frozenset(stops))
+        finally:
+            self.fn_stack.pop()
+        return {k: self.merger.merge(v) for k, v in outs.items()}
+
+    def enter(self, key, args, st=None):
+        """Create the frame of `key` with its arguments bound; -> (state, frame id)."""
+        st = st or State()
+        mir = self.pdb.fn(key)['mir']
+        fid = self.next_fid
+        self.next_fid += 1
+        if len(args) != mir['arg_count']:
+            raise Uncertified("arity mismatch entering %s" % key)
+        st.frames[fid] = {i + 1: a for i, a in enumerate(args)}
+        self.fuel = self.FUEL
+        return st, fid
+
     def call_fn(self, st, key, args, self_ty, depth):
         if depth > self.MAX_DEPTH:
             raise Uncertified("call depth bound exceeded at %s" % key)
@@ -1290,7 +1314,18 @@ class Exec:
                 return st
             if callee in self.opaque:
                 rty = self.pdb.tys(self.pdb.fn(callee)['mir']['locals'][0])
-                ret = mk_call('fn:' + callee, args, rty)
+                snap = [self.load(st, a) if a[0] == 'ref' else a for a in args]
+                ret = mk_call('fn:' + callee, snap, rty)
+                rt = self.pdb.ty(self.pdb.fn(callee)['mir']['locals'][0])
+                if rt['k'] == 'tuple':
+                    els = []
+                    for i, e in enumerate(rt['elems']):
+                        et = self.pdb.ty(e)
+                        if et['k'] in ('int', 'bool', 'char'):
+                            els.append(mk_call('fn:%s#%d' % (callee, i), snap, et['s']))
+                        else:
+                            els.append(mk('field', ret, i))
+                    ret = agg(('tuple',), els)
                 self.write_place(st, fid, t['dest'], ret)
                 return st
             cfn = self.pdb.fn(callee)
